@@ -52,21 +52,44 @@ def run(rep, prog, tier):
         sp = ev.fresh().apply(ev.getitem(ev.getattr(A('self'), 'input', m, 0), el), [ev.getattr(A('self'), 'tin', m, 0)], {}, m, 0)
         oku = bool(src_ok and term_equal(u.elt, sp)) if not has_opaque(u) else None
     rep.ob('R12.wiring', 'inputs', oku, f'_u = {u!r:.200}', site)
-    # ---- solver call (AST: argument roles)
-    mem = prog.find_member(m, cls, '__post_init__')
-    calls = [n for n in ast.walk(mem[1]) if isinstance(n, ast.Call) and ast.unparse(n.func) == 'self.solver']
-    if not calls:
-        rep.ob('R12.wiring', 'solver-call', None, 'self.solver(...) not found', site)
+    # ---- solver call: read off the normal form of what __post_init__ stores (robust to renaming / re-arranging the statements)
+    def find_call(k):
+        """the key of the call  self.solver(...)  inside a term key"""
+        if isinstance(k, tuple):
+            if len(k) >= 4 and k[0] == 'call' and k[1] == ('.', 'self', 'solver'): return k
+            for x in k:
+                r = find_call(x)
+                if r is not None: return r
+        return None
+    sc = None
+    for (obj, attr), val in ev.stores.items():
+        if obj == 'self' and isinstance(attr, str):
+            sc = sc or find_call(tkey(val))
+    if sc is None:
+        for key in ('solver:model', 'solver:inputs', 'solver:time', 'solver:x0'):
+            rep.ob('R12.wiring', key, None, 'no call of self.solver(...) found in what __post_init__ stores', site)
     else:
-        c = calls[0]
-        a = [ast.unparse(x).replace(' ', '') for x in c.args]
-        model = c.args[0] if c.args else None
-        kw = {k.arg: ast.unparse(k.value).replace(' ', '') for k in model.keywords} if isinstance(model, ast.Call) else {}
-        okm = kw.get('A') == 'self._ssm.A' and kw.get('B') == 'self._ssm.B' and kw.get('C', '').startswith('np.eye(') and kw.get('D', '').startswith('np.zeros(')
-        rep.ob('R12.wiring', 'solver:model', okm, f'StateSpaceModel({kw})', prog.site(m, c))
-        rep.ob('R12.wiring', 'solver:inputs', len(a) > 1 and a[1] == 'self._u.T', f'input argument = {a[1] if len(a) > 1 else None}', prog.site(m, c))
-        rep.ob('R12.wiring', 'solver:time', len(a) > 2 and a[2] == 'self.tin', f'time argument = {a[2] if len(a) > 2 else None}', prog.site(m, c))
-        rep.ob('R12.wiring', 'solver:x0', len(a) > 3 and a[3].startswith('np.zeros('), f'initial state = {a[3] if len(a) > 3 else None}', prog.site(m, c))
+        args = list(sc[2]); kws = dict(sc[3])
+        names = ['ssm', 'y', 't', 'x0']
+        amap = {names[i]: a for i, a in enumerate(args) if i < 4}
+        # model record
+        model = amap.get('ssm')
+        fields = dict(model[2]) if isinstance(model, tuple) and len(model) == 3 and model[0] == 'rec' else {}
+        A_k = tkey(ev.getattr(ssm, 'A', m, 0)); B_k = tkey(ev.getattr(ssm, 'B', m, 0))
+        okA = fields.get('A') == A_k and fields.get('B') == B_k
+        def head(k):
+            if isinstance(k, tuple) and len(k) > 1 and k[0] == 'opq' and isinstance(k[1], str) and k[1].startswith('np.'): return k[1][3:]
+            try: return Poly(dict(k[1:])).as_atom()[0]
+            except Exception: return None
+        okC = head(fields.get('C')) == 'eye'
+        okD = head(fields.get('D')) == 'zeros'
+        rep.ob('R12.wiring', 'solver:model', bool(okA and okC and okD), f"StateSpaceModel(A=ssm.A: {fields.get('A') == A_k}, B=ssm.B: {fields.get('B') == B_k}, C=identity: {okC}, D=zeros: {okD})", site)
+        want_u = tkey(Poly.atom(('T', tkey(u)))) if u is not None else None
+        got_u = amap.get('y')
+        oku2 = got_u is not None and want_u is not None and (got_u == want_u or got_u == tkey(Poly.atom(('T', Poly.atom(('.', 'self', '_u')).key()))) or _is_T_of(got_u, tkey(u)))
+        rep.ob('R12.wiring', 'solver:inputs', bool(oku2), 'input series handed over as u^T (samples x inputs)', site)
+        rep.ob('R12.wiring', 'solver:time', amap.get('t') == tkey(ev.getattr(A('self'), 'tin', m, 0)), 'time grid = self.tin', site)
+        rep.ob('R12.wiring', 'solver:x0', head(amap.get('x0')) == 'zeros', 'initial state = zeros(...)', site)
     # ---- getters: c_row_Q(id) @ x + d_row_Q(id) @ u
     for q, acc in (('potential', 'for_potential'), ('voltage', 'voltage'), ('current', 'current')):
         memg = prog.find_member(m, cls, f'get_{q}')
@@ -101,6 +124,15 @@ def run(rep, prog, tier):
         rep.ob('R12.wiring', 'lsim(sys,u,t)', ok, f'lsim({", ".join(got)})', g.site)
     else:
         rep.ob('R12.wiring', 'lsim(sys,u,t)', None, 'lsim call not found', g.site)
+
+
+def _is_T_of(k, inner):
+    """k is the key of  <inner>.T"""
+    try:
+        at = Poly(dict(k[1:])).as_atom()
+        return at[0] == 'T' and (at[1] == inner or at[1] == Poly(dict(inner[1:])).as_atom() or tkey(at[1]) == inner)
+    except Exception:
+        return False
 
 
 def _net_at_dc(netkey):
